@@ -182,7 +182,7 @@ func (c *m2) assigned2(stmts []ast.Stmt, from token.Pos) []types.Object {
 			return
 		case *ast.Ident:
 			o := c.obj(e)
-			if o == nil || !c.isLocal(o) || o.Pos() >= from || seen[o] || c.erased[o] || o == c.recvObj {
+			if o == nil || !c.isLocal(o) || o.Pos() >= from || seen[o] || c.erased[o] || o == c.recvObj || isErrorType(o.Type()) {
 				return
 			}
 			seen[o] = true
@@ -207,6 +207,10 @@ func (c *m2) assigned2(stmts []ast.Stmt, from token.Pos) []types.Object {
 				}
 			case *ast.IncDecStmt:
 				add(n.X)
+			case *ast.CallExpr:
+				if _, sel, _, mutates, ok := c.absPeek(n); ok && mutates {
+					add(sel.X)
+				}
 			case *ast.RangeStmt:
 				if n.Tok == token.ASSIGN {
 					if n.Key != nil {
@@ -270,6 +274,14 @@ func (c *m2) blk(stmts []ast.Stmt, ind string, tail tailFn) {
 				return
 			}
 			continue
+		case *ast.SwitchStmt:
+			c.cmt(ind, s)
+			if is := c.desugarSwitch(s); is != nil {
+				if c.ifStmt2(is, rest, ind, tail) {
+					return
+				}
+			}
+			continue
 		case *ast.AssignStmt:
 			if c.errCall(s, rest, ind, tail) {
 				return
@@ -314,6 +326,12 @@ func (c *m2) ret(s *ast.ReturnStmt, ind string) {
 	var vals []string
 	for i, r := range s.Results[:nres] {
 		if isNil(r) {
+			if rt := c.sig.results[i]; rt.k == mAbs {
+				c.needAbsType(rt.abs)
+				c.needAbsMeth(rt.abs+"_nil", rt.coq())
+				vals = append(vals, rt.abs+"_nil")
+				continue
+			}
 			vals = append(vals, c.sig.results[i].zero())
 			continue
 		}
@@ -383,9 +401,15 @@ func (c *m2) simple(s ast.Stmt, ind string) {
 		x := c.ex(s.X)
 		var v string
 		switch {
+		case k.k == mZ && k.sized && op == token.ADD:
+			v = fmt.Sprintf("(Go.wrapZ %d (%s + 1)%%Z)", k.w, x)
+		case k.k == mZ && k.sized:
+			v = fmt.Sprintf("(Go.wrapZ %d (%s - 1)%%Z)", k.w, x)
 		case k.k == mZ && op == token.ADD:
+			c.note(s, "`%s`: int increment assumed not to overflow", c.srcText(s.Pos(), s.End()))
 			v = fmt.Sprintf("(%s + 1)%%Z", x)
 		case k.k == mZ:
+			c.note(s, "`%s`: int decrement assumed not to overflow", c.srcText(s.Pos(), s.End()))
 			v = fmt.Sprintf("(%s - 1)%%Z", x)
 		case k.k == mN && op == token.ADD:
 			v = fmt.Sprintf("((%s + 1) %s)", x, mod2(k.w))
@@ -405,25 +429,38 @@ func (c *m2) simple(s ast.Stmt, ind string) {
 		}
 		for _, sp := range gd.Specs {
 			vs := sp.(*ast.ValueSpec)
-			if len(vs.Names) != 1 || len(vs.Values) > 1 {
-				c.fail(vs, "var declaration of several variables")
+			if len(vs.Values) > 1 || (len(vs.Values) == 1 && len(vs.Names) != 1) {
+				c.fail(vs, "var declaration of several variables with initialisers")
 			}
 			c.cmt(ind, vs)
-			o := c.p.info.Defs[vs.Names[0]]
-			t := c.mt(o.Type(), vs)
-			if len(vs.Values) == 1 {
-				c.letVar(vs.Names[0], c.ex(vs.Values[0]), ind)
-			} else {
-				c.letVar(vs.Names[0], t.zero(), ind)
+			for _, vn := range vs.Names {
+				o := c.p.info.Defs[vn]
+				t := c.mt(o.Type(), vs)
+				if len(vs.Values) == 1 {
+					c.letVar(vn, c.ex(vs.Values[0]), ind)
+				} else {
+					c.letVar(vn, t.zero(), ind)
+				}
 			}
 		}
 	case *ast.EmptyStmt:
 	case *ast.BlockStmt:
 		c.fail(s, "nested block statement")
 	case *ast.ExprStmt:
+		if call, ok := s.X.(*ast.CallExpr); ok {
+			if ac, ok := c.absCall(call); ok && ac.mutates && !ac.hasErr {
+				c.cmt(ind, s)
+				c.flush(ind)
+				if len(ac.results) == 0 {
+					c.emitf(ind, "let %s := %s in", ac.obj, ac.text)
+				} else {
+					us := strings.Repeat("_, ", len(ac.results))
+					c.emitf(ind, "let '(%s%s) := %s in", us, ac.obj, ac.text)
+				}
+				return
+			}
+		}
 		c.fail(s, "expression statement `%s`", c.srcText(s.Pos(), s.End()))
-	case *ast.SwitchStmt:
-		c.fail(s, "switch statement (not yet supported in the monadic mode)")
 	default:
 		c.fail(s, "unsupported statement %s `%s`", nodeName(s), c.firstLine(s))
 	}
@@ -510,17 +547,38 @@ func (c *m2) fieldObj(path string, t types.Type) types.Object {
 }
 
 func (c *m2) addWField(name string) {
+	for i, f := range c.sig.fields {
+		if f == name {
+			c.addWFieldT(name, c.sig.fieldTy[i])
+			return
+		}
+	}
+	c.addWFieldT(name, mtype{k: mUnit})
+}
+
+func (c *m2) addWFieldT(name string, t mtype) {
 	for _, w := range c.sig.wfields {
 		if w == name {
 			return
 		}
 	}
+	if c.sig.wfieldTy == nil {
+		c.sig.wfieldTy = map[string]mtype{}
+	}
+	c.sig.wfieldTy[name] = t
 	c.sig.wfields = append(c.sig.wfields, name)
 }
 
 func (c *m2) assign(s *ast.AssignStmt, ind string) {
 	c.cmt(ind, s)
-	if len(s.Lhs) == 1 && len(s.Rhs) == 1 {
+	isMutAbs := false
+	if len(s.Rhs) == 1 {
+		if call, ok := s.Rhs[0].(*ast.CallExpr); ok {
+			_, _, _, mutates, isAbs := c.absPeek(call)
+			isMutAbs = isAbs && mutates
+		}
+	}
+	if len(s.Lhs) == 1 && len(s.Rhs) == 1 && !isMutAbs {
 		switch s.Tok {
 		case token.DEFINE, token.ASSIGN:
 			c.store(s.Lhs[0], c.ex(s.Rhs[0]), ind)
@@ -533,7 +591,7 @@ func (c *m2) assign(s *ast.AssignStmt, ind string) {
 		}
 		return
 	}
-	if len(s.Lhs) == len(s.Rhs) && (s.Tok == token.DEFINE || s.Tok == token.ASSIGN) {
+	if len(s.Lhs) == len(s.Rhs) && (s.Tok == token.DEFINE || s.Tok == token.ASSIGN) && !isMutAbs {
 		// parallel assignment: all right-hand sides first
 		var vals []string
 		for _, r := range s.Rhs {
@@ -556,6 +614,23 @@ func (c *m2) assign(s *ast.AssignStmt, ind string) {
 	// several results of a call without an error result
 	if len(s.Rhs) == 1 {
 		if call, ok := s.Rhs[0].(*ast.CallExpr); ok {
+			if _, _, _, mutates, isAbs := c.absPeek(call); isAbs && mutates {
+				ac, _ := c.absCall(call)
+				if ac.hasErr || len(ac.results) != len(s.Lhs) {
+					c.fail(s, "unsupported call of a method of an abstract object")
+				}
+				c.flush(ind)
+				var names []string
+				for _, l := range s.Lhs {
+					id, ok := l.(*ast.Ident)
+					if !ok {
+						c.fail(l, "unsupported left-hand side")
+					}
+					names = append(names, coqName(id.Name))
+				}
+				c.emitf(ind, "let '(%s, %s) := %s in", strings.Join(names, ", "), ac.obj, ac.text)
+				return
+			}
 			if sig := c.calleeSig(call); sig != nil && !sig.hasErr && len(sig.results) == len(s.Lhs) {
 				text := c.callText(call, sig)
 				c.flush(ind)
@@ -574,6 +649,15 @@ func (c *m2) assign(s *ast.AssignStmt, ind string) {
 					c.emitf(ind, "let '(%s) := %s in", strings.Join(names, ", "), text)
 				}
 				return
+			}
+		}
+	}
+	if len(s.Rhs) == 1 {
+		if call, ok := s.Rhs[0].(*ast.CallExpr); ok {
+			if id, ok := call.Fun.(*ast.Ident); ok {
+				if f, isF := c.obj(id).(*types.Func); isF && f.Pkg() != nil && f.Pkg().Path() == c.p.pkgPath() && c.calleeSig(call) == nil {
+					c.fail(s, "call of `%s`, which is not (or could not be) translated (list it before its callers; see its own message if any)", id.Name)
+				}
 			}
 		}
 	}
@@ -606,6 +690,17 @@ func (c *m2) errCall(s *ast.AssignStmt, rest []ast.Stmt, ind string, tail tailFn
 		return false
 	}
 	sig := c.calleeSig(call)
+	var ac *absCallInfo
+	if sig == nil {
+		if _, _, asig, _, isAbs := c.absPeek(call); isAbs {
+			n := asig.Results().Len()
+			if n > 0 && isErrorType(asig.Results().At(n-1).Type()) {
+				c.cmt(ind, s)
+				ac, _ = c.absCall(call)
+				sig = &fsig{hasErr: true, results: ac.results}
+			}
+		}
+	}
 	if sig == nil || !sig.hasErr {
 		return false
 	}
@@ -631,6 +726,9 @@ func (c *m2) errCall(s *ast.AssignStmt, rest []ast.Stmt, ind string, tail tailFn
 		names = append(names, coqName(id.Name))
 		xobjs = append(xobjs, c.obj(id))
 	}
+	if ac != nil && ac.mutates {
+		names = append(names, ac.obj)
+	}
 	okPat := "_"
 	if len(names) == 1 {
 		okPat = names[0]
@@ -654,8 +752,13 @@ func (c *m2) errCall(s *ast.AssignStmt, rest []ast.Stmt, ind string, tail tailFn
 	if ifs.Else != nil {
 		c.fail(ifs, "else branch after an error test")
 	}
-	c.cmt(ind, s)
-	text := c.callText(call, sig)
+	var text string
+	if ac != nil {
+		text = ac.text
+	} else {
+		c.cmt(ind, s)
+		text = c.callText(call, sig)
+	}
 	c.flush(ind)
 	c.effect = true
 	after := rest[1:]
@@ -698,6 +801,105 @@ func (c *m2) errCall(s *ast.AssignStmt, rest []ast.Stmt, ind string, tail tailFn
 }
 
 // ---------------------------------------------------------------------------
+// switch on a value: rewritten into the if / else-if chain it abbreviates (the tag must be a pure
+// expression, it is repeated in every comparison; fallthrough chains are expanded as in the first mode)
+
+func (c *m2) desugarSwitch(s *ast.SwitchStmt) *ast.IfStmt {
+	if s.Init != nil {
+		c.fail(s, "switch with an init statement")
+	}
+	if s.Tag == nil {
+		c.fail(s, "switch without a tag")
+	}
+	tt := c.tyOf(s.Tag)
+	if tt.k != mN && tt.k != mZ {
+		c.fail(s, "switch on a %s value", tt)
+	}
+	save := c.pend
+	c.pureEx(s.Tag, "switch tag")
+	c.pend = save
+	var clauses []*ast.CaseClause
+	def := -1
+	for i, cl := range s.Body.List {
+		cc := cl.(*ast.CaseClause)
+		clauses = append(clauses, cc)
+		if cc.List == nil {
+			def = i
+		}
+		for _, e := range cc.List {
+			if _, ok := c.constInt(e); !ok {
+				c.fail(e, "non-constant case expression")
+			}
+		}
+		for _, b := range cc.Body {
+			ast.Inspect(b, func(n ast.Node) bool {
+				switch n := n.(type) {
+				case *ast.ForStmt, *ast.RangeStmt, *ast.SwitchStmt:
+					return false
+				case *ast.BranchStmt:
+					if n.Tok == token.BREAK {
+						c.fail(n, "break inside a switch clause")
+					}
+				}
+				return true
+			})
+		}
+	}
+	var body func(i, depth int) []ast.Stmt
+	body = func(i, depth int) []ast.Stmt {
+		if depth > len(clauses) {
+			c.fail(s, "fallthrough cycle")
+		}
+		b := clauses[i].Body
+		if n := len(b); n > 0 {
+			if br, ok := b[n-1].(*ast.BranchStmt); ok && br.Tok == token.FALLTHROUGH {
+				if i+1 >= len(clauses) {
+					c.fail(br, "fallthrough in the last clause")
+				}
+				return append(append([]ast.Stmt{}, b[:n-1]...), body(i+1, depth+1)...)
+			}
+		}
+		return b
+	}
+	boolTV := types.TypeAndValue{Type: types.Typ[types.Bool]}
+	var first, last *ast.IfStmt
+	for i, cc := range clauses {
+		if cc.List == nil {
+			continue
+		}
+		var cond ast.Expr
+		for _, e := range cc.List {
+			eq := &ast.BinaryExpr{X: s.Tag, OpPos: e.Pos(), Op: token.EQL, Y: e}
+			c.p.info.Types[eq] = boolTV
+			if cond == nil {
+				cond = eq
+			} else {
+				or := &ast.BinaryExpr{X: cond, OpPos: e.Pos(), Op: token.LOR, Y: eq}
+				c.p.info.Types[or] = boolTV
+				cond = or
+			}
+		}
+		is := &ast.IfStmt{If: cc.Pos(), Cond: cond, Body: &ast.BlockStmt{Lbrace: cc.Colon, List: body(i, 0), Rbrace: cc.End()}}
+		if first == nil {
+			first = is
+		} else {
+			last.Else = is
+		}
+		last = is
+	}
+	if first == nil {
+		if def >= 0 {
+			c.fail(s, "switch with only a default clause")
+		}
+		return nil
+	}
+	if def >= 0 {
+		last.Else = &ast.BlockStmt{Lbrace: clauses[def].Colon, List: body(def, 0), Rbrace: clauses[def].End()}
+	}
+	return first
+}
+
+// ---------------------------------------------------------------------------
 // if
 
 // ifStmt2 returns true when it consumed the rest of the block
@@ -732,10 +934,22 @@ func (c *m2) ifStmt2(s *ast.IfStmt, rest []ast.Stmt, ind string, tail tailFn) bo
 		return true
 	}
 	all := append(append([]ast.Stmt{}, s.Body.List...), elseStmts(s.Else)...)
-	if c.hasCtl(all, true, true, true) {
-		c.fail(s, "if statement with a return/break/continue in a branch that can also complete normally (restructure: only terminating branches may transfer control)")
-	}
 	st := c.assigned2(all, s.Pos())
+	if c.hasCtl(all, true, true, true) {
+		// a branch may transfer control (return / break / continue) or complete normally: what follows the
+		// if becomes a local continuation, called by every branch that completes normally
+		k := fmt.Sprintf("k%d_", c.ntmp+1)
+		c.ntmp++
+		c.emitf(ind, "let %s := fun %s =>", k, funPat(st))
+		c.blk(rest, ind+"    ", tail)
+		c.emitf(ind, "in")
+		join := func(i string) { c.emitf(i, "%s %s", k, tuple2(st)) }
+		c.emitf(ind, "if %s then", cond)
+		c.blk(s.Body.List, ind+"  ", join)
+		c.emitf(ind, "else")
+		c.blk(elseStmts(s.Else), ind+"  ", join)
+		return true
+	}
 	run := func(tier int) func() {
 		return func() {
 			c.emitf(ind, "  if %s then", cond)
